@@ -407,6 +407,7 @@ static void op_ctl(int oi, int req, int val)
    dirty_stack(next_pat());
    rc = ctl1(o->st, o->kind, req, val);
    if (o->sst) ctl1(o->sst, shadow_kind(o->kind), req, val);
+   if (o->vst) ctl1(o->vst, 'D', req, val);          /* the stream view must decode what the projection decoder's streams decode */
    g_call++;
    js_open("T"); js_int("o", oi); js_int("req", req); js_int("v", val); js_int("rc", rc); js_close();
 }
